@@ -4,6 +4,7 @@
     Independent power bookkeeping over generated structures inside the
     validity filter of the documented thin-wire modelling rules.
 """
+import copy
 import numpy as np
 from pmv import common, gen, observe, corpus
 from pmv.oracles import georef
@@ -277,6 +278,26 @@ def check (c):
         key = dict ( coarse = 'coarse-segmentation', junction = 'unequal-junction-segments', decide = 'power-balance'
                    , lowhoriz = 'low-horizontal-wire-over-real-ground', stepped = 'stepped-media-heights'
                    , radialscreen = 'radial-screen-under-horizontal-wire') [band]
+        if key == 'power-balance' and spec.get ('steps'):
+            # conductors of different thickness on a junction of three or more: classified as the known finding only if
+            # such a junction exists (radii more than a factor of two apart) and the same structure with one radius
+            # throughout balances
+            ends_ = [(np.asarray (g.segments [0].p1 if e == 0 else g.segments [-1].p2, float), float (g.r_orig)) for g in m.geo for e in (0, 1)]
+            tol_  = 1e-3 * min (float (sg.seg_len) for g in m.geo for sg in g.segments)
+            multi = False
+            for P_, r_ in ends_:
+                rr_ = [r for Q, r in ends_ if np.linalg.norm (P_ - Q) <= tol_]
+                if len (rr_) >= 3 and max (rr_) > 2 * min (rr_):
+                    multi = True
+            if multi:
+                s2 = copy.deepcopy ({k: v for k, v in spec.items () if k != 'steps'})
+                rmin = min (g ['r'] for g in s2 ['geo'])
+                for g in s2 ['geo']:
+                    g ['r'] = rmin
+                r2 = check (s2)
+                if r2.get ('status') == 'held':
+                    key = 'radius-step-at-junction-of-three'
+                    msg += ' [with one radius throughout: margin %.3g]' % (r2.get ('margin') or 0.0)
         viol.append (dict (monitor = 'balance', key = key, msg = msg, measured = measured, allowed = 0.015))
     # ---- solving again on the same object must not change the books
     observe.solve (m)
